@@ -719,6 +719,8 @@ class Bits:
             length = len(self)
         if length is None or length == 0:
             raise bitstring.CreationError("A non-zero length must be specified with a uintbe initialiser.")
+        if length % 8:
+            raise bitstring.CreationError(f"Big-endian integers must be whole-byte. Length = {length} bits.")
         self._bitstore = bitstore_helpers.int2bitstore(uintbe, length, False)
 
     def _getuintbe(self) -> int:
@@ -733,6 +735,8 @@ class Bits:
             length = len(self)
         if length is None or length == 0:
             raise bitstring.CreationError("A non-zero length must be specified with a intbe initialiser.")
+        if length % 8:
+            raise bitstring.CreationError(f"Big-endian integers must be whole-byte. Length = {length} bits.")
         self._bitstore = bitstore_helpers.int2bitstore(intbe, length, True)
 
     def _getintbe(self) -> int:
@@ -746,6 +750,8 @@ class Bits:
             length = len(self)
         if length is None or length == 0:
             raise bitstring.CreationError("A non-zero length must be specified with a uintle initialiser.")
+        if length % 8:
+            raise bitstring.CreationError(f"Little-endian integers must be whole-byte. Length = {length} bits.")
         self._bitstore = bitstore_helpers.intle2bitstore(uintle, length, False)
 
     def _getuintle(self) -> int:
@@ -760,6 +766,8 @@ class Bits:
             length = len(self)
         if length is None or length == 0:
             raise bitstring.CreationError("A non-zero length must be specified with an intle initialiser.")
+        if length % 8:
+            raise bitstring.CreationError(f"Little-endian integers must be whole-byte. Length = {length} bits.")
         self._bitstore = bitstore_helpers.intle2bitstore(intle, length, True)
 
     def _getintle(self) -> int:
